@@ -453,6 +453,13 @@ def monitorOp (mu : Mon) (prev : Args) (toks : List String) (implOk : Bool) (out
         else some (mk "C08" "C08/cumulative" s!"subkey={x} denom={d} spent={sp} remaining={NativeBalance.total al.balance d} granted={g}"))
     -- ---------- C17
     let cfgChanged := cur.str "admins" != prev.str "admins" || cMut != pMut
+    let f17x := if fresh || !mu.sub then [] else
+      (if kind == "execute" && implOk && !wasAdmin then
+        match AMap.get? pRaw snd, AMap.get? cRaw snd with
+        | some o, some n => if o.expires == n.expires then [] else
+            [mk "C17" "C17/expiry-changed-by-subkey" s!"subkey={snd} {o.expires.render}->{n.expires.render}"]
+        | _, _ => []
+       else [])
     let f17 := if fresh then [] else
       (if cAdmins != pAdmins && !(implOk && kind == "update_admins" && pMut && wasAdmin) then
         [mk "C17" "C17/admins-changed" s!"admins changed by {kind} from {snd} (mutable={pMut}, sender admin={wasAdmin})"] else []) ++
@@ -471,7 +478,7 @@ def monitorOp (mu : Mon) (prev : Args) (toks : List String) (implOk : Bool) (out
         if implOk && wasAdmin then none
         else some (mk "C17" "C17/grant-by-non-admin" s!"permissions of {k} changed by {kind} from {snd}"))
     let mu := if !cMut && mu.frozenCfg.isNone then { mu with frozenCfg := some (cur.str "admins", "false") } else mu
-    (mu, f7 ++ f8 ++ fg ++ f17)
+    (mu, f7 ++ f8 ++ fg ++ f17 ++ f17x)
 
 def wlScen : Scen MState Mon where
   init h := { sub := false, pool := h.list "pool" }
